@@ -32,6 +32,11 @@ import hashlib
 
 import numpy as np
 
+# imported here, in the runner's parent process, so that the per-case forked children do not pay for it
+import panqec.codes        # noqa: F401
+import panqec.decoders     # noqa: F401
+import panqec.error_models  # noqa: F401
+
 from mc import gf2
 from mc.env_rng import ChoiceRNG
 
@@ -42,7 +47,7 @@ TECHNIQUE = ('explicit-state exploration of all decode() call histories of bound
              'alphabet on live decoder objects (plus one pair-covering de Bruijn walk on a single object), tie-break '
              'RNG answers enumerated as environment choices; differential oracle against fresh-decoder outcomes')
 LEVEL_TEXT = ('The decoder object is treated as a state machine whose only operation is decode(s). All histories of '
-              'length 2 (3 for alphabets of at most 16, thorough: 64) over the complete alphabet of a tiny code are '
+              'length 2 (3 for alphabets of at most 16 symbols, thorough: 64) over the complete alphabet of a tiny code are '
               'executed on the real decoder objects and each call is compared bitwise with what a freshly built decoder '
               'returns; for the randomised sweep decoders every tie-break answer sequence is enumerated, so reused and '
               'fresh decoders are compared under identical environment answers. State carried between calls (third-party '
@@ -74,8 +79,9 @@ ASSUMPTIONS = [
     'decoder state is observed only through decode() results, the argument array and the noise tables',
 ]
 BOUNDS = {
-    'quick': {'history_length': '2; 3 where the alphabet has <= 16 symbols (MBP: <= 8)',
-              'depth3_max_alphabet': 16, 'depth3_all_forms_max': 16, 'full_alphabet_max': 64,
+    'quick': {'history_length': '2; 3 where the alphabet has <= 8 symbols, and for the 16-symbol alphabet in the uint8 '
+                                'form (Matching; BP-OSD with osd_order 10)',
+              'depth3_max_alphabet': 16, 'depth3_all_forms_max': 8, 'full_alphabet_max': 64,
               'tie_syndromes_max': 6, 'tie_scripts_per_syndrome_max': 81, 'mbp_max_bp_iter': 3,
               'union_find_alphabet': 'weight-1', 'forms_exact': ['uint8', 'int64'],
               'forms_walk': ['uint8', 'int64', 'uint8-ro', 'int64-ro'],
